@@ -12,6 +12,7 @@
 From Coq Require Import ZArith List Bool.
 From V Require Import C08Flv.
 From V Require Import Val StreamLts Cache C02Classify C02FlvProducer C02FlvViewers.
+From V Require Import LtsWire LtsOracle C02JoinSeam.
 Import ListNotations.
 Open Scope Z_scope.
 
@@ -137,3 +138,7 @@ Definition x_C02_flv_viewers_ok (v : val) : val :=
   vbool (viewers_ok (vc_gop c) (vc_tags c) (vc_evs c)
            (map (fun p => (dec_replay (nthv 0 p), dec_replay (nthv 1 p))) (as_list (nthv 0 obs)))
            (map (fun p => (as_int (nthv 0 p), as_bytes (nthv 1 p))) (as_list (nthv 1 obs)))).
+
+(* ---- the seam oracle on a stream-LTS case (same case / observation formats as x_C02_lts):
+   v = (case observed); Model.C02JoinSeam.seam_ok, the function of [seam_model_passes] ---- *)
+Definition x_C02_seam_ok (v : val) : val := vbool (seam_ok (dec_lcase (nthv 0 v)) (dec_obs (nthv 1 v))).
